@@ -11,6 +11,7 @@ import re
 import ghmock
 from vcheck import Machinery, pmap
 
+SEARCH = 'BUG.7'       # contains a character that would be special in a regular expression
 _ENV = {}
 
 
@@ -31,8 +32,9 @@ def make_repo(h, time_step=2 * 86400):
     for c in range(1, h['n'] + 1):
         ps = sorted(h['parents'][c - 1], reverse=(c % 2 == 0))
         # a matching commit mentions the search text somewhere in its message: first line, or only in a trailer
-        msg = (('BUG-7 fix %d', 'fix %d\n\nRefs: BUG-7\n', 'fix %d (BUG-7)\nsecond line')[c % 3] % c) if h['match'][c - 1] else (
-            ('other %d', 'other %d\n\nRefs: BUG-8')[c % 2] % c)
+        # the search text is plain text, not a pattern: "BUG-7" (any character instead of the dot) does not match
+        msg = (('BUG.7 fix %d', 'fix %d\n\nRefs: BUG.7\n', 'fix %d (BUG.7)\nsecond line')[c % 3] % c) if h['match'][c - 1] else (
+            ('other %d BUG-7', 'other %d\n\nRefs: BUG-7, BUG.8')[c % 2] % c)
         commits[c] = (ps, msg, {})
         if h['tagged'][c - 1]:
             tags['build_%d_release_1_0_success' % (100 + c)] = c
@@ -43,7 +45,7 @@ def observe(h):
     e = _env()
     repo = make_repo(h)
     coll = e['ReposCollection']({'r1': e['Repo1']('r1', repo, 'origin')})
-    data = coll.make_reports_data('BUG-7')
+    data = coll.make_reports_data(SEARCH)
     assert len(data) == 1
     _, rgraph = data[0]
     report, order = {}, []
@@ -59,7 +61,7 @@ def observe(h):
                 entries.append({'kind': kind, 'commit': rbuild.rcommit.commit.intid, 'listed': listed})
         report[rb.branch_name] = entries
     # the printed report must list the same builds and commits as the data
-    text = coll.make_report('BUG-7').ch_text(no_color=True).plain_text()
+    text = coll.make_report(SEARCH).ch_text(no_color=True).plain_text()
     printed, porder, cur = {}, [], None
     for ln in text.split('\n'):
         st = ln.strip()
